@@ -102,17 +102,18 @@ def chart3(npos: int, nk: bool, k0: int, v0: str, v1: str, notes: str, a0: bool,
     return _check_roundtrip(sf)
 
 
-def chart_multi(which: bool, v: str, npos: int, alias: bool) -> bool:
+def chart_multi(which: bool, v: str, npos: int, alias: bool, ns: bool, nc: bool) -> bool:
     """
     pre: len(v) <= L3 and 0 <= npos <= 2
     post: _
     """
+    # ns / nc: the multi-value property is key-only (None) on simfile / chart level
     sf = SSCSimfile(string="")
     sf["VERSION"] = "0.83"
-    sf["ATTACKS" if which else "DISPLAYBPM"] = v
+    sf["ATTACKS" if which else "DISPLAYBPM"] = None if ns else v
     ch = SSCChart()
     notes = "0000"
-    pairs = [("DISPLAYBPM" if which else "ATTACKS", v), ("CREDIT", notes if alias else "c")]
+    pairs = [("DISPLAYBPM" if which else "ATTACKS", None if nc else v), ("CREDIT", notes if alias else "c")]
     pairs.insert(npos, ("NOTES", notes))
     for k, val in pairs:
         ch[k] = val
